@@ -15,6 +15,19 @@ func TestOwnsListeningPort(t *testing.T) {
 	if !OwnsListeningPort(port) {
 		t.Fatalf("own listening port %d not recognised", port)
 	}
+	c, err := net.Dial("tcp", l.Addr().String())
+	if err != nil {
+		t.Fatal(err)
+	}
+	sc, err := l.Accept()
+	if err != nil {
+		t.Fatal(err)
+	}
+	if !OwnsServerSideConnection(port) {
+		t.Fatalf("accepted connection on port %d not recognised", port)
+	}
+	_ = sc.Close()
+	_ = c.Close()
 	_ = l.Close()
 	if OwnsListeningPort(port) {
 		t.Fatalf("port %d still reported as ours after Close", port)
